@@ -114,6 +114,33 @@ def impl_emit_file(S):
             return {"raises": core.exc_name(e)}
 
 
+def robust_map(fn, items, timeout=30.0):
+    """`core.guarded_map`, but a stall is only believed when it reproduces: items that timed out (or were skipped after
+    several timeouts) are run again, alone, with a generous limit.  A loaded machine must not look like a hanging emitter:
+    confirmed → {"timeout": True} (a property failure: no schema is returned); if stalls do not reproduce the results of
+    the second run are used; what could not be re-run → HarnessError (exit 2), never a verdict."""
+    res = core.guarded_map(fn, items, per_item_timeout=timeout)
+    bad = [i for i, r in enumerate(res) if isinstance(r, dict) and (r.get("timeout") or r.get("skipped"))]
+    if not bad:
+        return res
+    confirmed = 0
+    for i in bad[:6]:
+        rr = core.guarded_map(fn, [items[i]], per_item_timeout=240.0, nproc=1)[0]
+        res[i] = rr
+        confirmed += bool(isinstance(rr, dict) and rr.get("timeout"))
+    rest = bad[6:]
+    if rest and not confirmed:
+        again = core.guarded_map(fn, [items[i] for i in rest], per_item_timeout=240.0)
+        for i, rr in zip(rest, again):
+            res[i] = rr
+        if any(isinstance(r, dict) and r.get("skipped") for r in again):
+            raise core.HarnessError("real-code calls keep stalling without reproducing (machine overloaded?)")
+    elif rest:
+        for i in rest:
+            res[i] = {"skipped": True}  # a confirmed hang is already reported; the others are left out of the oracle
+    return res
+
+
 def impl_parse_wire(w):
     import cdd.class_.parse  # noqa: F401
 
@@ -128,7 +155,10 @@ def run_vt(schemas: list, validate: list, nproc: int = core.NCPU) -> tuple[list,
             fin, fout = os.path.join(td, "in.json"), os.path.join(td, "out.json")
             with open(fin, "w") as f:
                 json.dump({"schemas": ss, "validate": vs}, f)
-            p = subprocess.run([VT, VT_SCRIPT, fin, fout], stdout=subprocess.PIPE, stderr=subprocess.PIPE, text=True, timeout=3000)
+            try:
+                p = subprocess.run([VT, VT_SCRIPT, fin, fout], stdout=subprocess.PIPE, stderr=subprocess.PIPE, text=True, timeout=3000)
+            except subprocess.TimeoutExpired:
+                raise core.HarnessError("python3-vt jsonschema runner did not finish within 3000 s (%d schemas, %d pairs)" % (len(ss), len(vs)))
             if p.returncode != 0:
                 raise core.HarnessError("python3-vt jsonschema runner failed: %s" % p.stderr[-800:])
             return json.load(open(fout))
@@ -162,7 +192,7 @@ def typ_view(s):
             ms = ast.literal_eval("[" + inner[len("Literal["):-1] + "]")
             if all(isinstance(m, str) for m in ms):
                 return (opt, ("lit", frozenset(ms)))
-        except (ValueError, SyntaxError):
+        except Exception:  # noqa  (ValueError / SyntaxError / TypeError / MemoryError … of a type string that is not Python)
             pass
     return (opt, ("name", inner))
 
@@ -196,8 +226,10 @@ def oracle_static(S, r):
     """Everything of the property that needs no validator: emits, serialisable, required ⇔ not Optional, round trip.
     Returns [(signature, text)]."""
     fails = []
-    if r.get("timeout") or r.get("skipped") or "error" in r:
-        fails.append(({"kind": "emit-no-result", "how": "timeout" if r.get("timeout") else str(r.get("error", "skipped"))}, "emit/parse did not return"))
+    if r.get("skipped"):
+        return fails  # not evaluated (see robust_map)
+    if r.get("timeout") or "error" in r:
+        fails.append(({"kind": "emit-no-result", "how": "timeout" if r.get("timeout") else str(r.get("error"))}, "emit/parse did not return (reproduced alone with a 240 s limit)" if r.get("timeout") else "emit/parse crashed the worker"))
         return fails
     if "emit_raises" in r:
         single = any("lit" in p["typ"] and len(p["typ"]["lit"]) == 1 for _, p in S["params"])
@@ -645,7 +677,7 @@ def run(chk: core.Check) -> int:
     cases += [("wrap", gen_wrap_S(rng)) for _ in range(n_wrap)]
     cases += [("edge", gen_edge_S(rng)) for _ in range(n_edge)]
     Ss = [S for _, S in cases]
-    impl = core.guarded_map(impl_emit_parse, Ss, per_item_timeout=30.0)
+    impl = robust_map(impl_emit_parse, Ss)
     model = core.model_batch([{"op": "c06.emit", "ir": g.S_for_model(S)} for S in Ss]) if have_driver else None
 
     # ---- (2) emit correspondence --------------------------------------------------------------------------------
@@ -672,7 +704,7 @@ def run(chk: core.Check) -> int:
         if k in (1, 2, len(WITNESSES) + 1, len(WITNESSES) + 2, len(WITNESSES) + 40, len(WITNESSES) + 41):
             chk.sample({"stream": stream, "ir": g.to_py_ir(S) and json.loads(json.dumps(g.to_py_ir(S), default=repr)),
                         "emitted": None if "schema" not in r else g.from_wire(r["schema"]) if not _has_bang(r["schema"]) else "non-JSON"})
-        if m is None or stream in ("wrap", "witness-wrap"):
+        if m is None or stream in ("wrap", "witness-wrap") or r.get("skipped"):
             continue
         if "error" in m:
             raise core.HarnessError("c06.emit: %s" % m["error"])
@@ -704,9 +736,10 @@ def run(chk: core.Check) -> int:
         k, schema = rng.choice(dom_emitted)
         mut, ops = mutate_for_parse(rng, schema)
         pm.append((g.to_wire(mut), ops))
-    pm_real = core.guarded_map(impl_parse_wire, [w for w, _ in pm], per_item_timeout=30.0)
+    pm_real = robust_map(impl_parse_wire, [w for w, _ in pm])
     for (w, ops), rr in zip(pm, pm_real):
-        parse_inputs.append(("mutant:" + "+".join(ops), w, rr))
+        if not rr.get("skipped"):
+            parse_inputs.append(("mutant:" + "+".join(ops), w, rr))
     if have_driver:
         mouts = core.model_batch([{"op": "c06.parse", "schema": w} for _, w, _ in parse_inputs])
         n_dis = 0
@@ -845,8 +878,10 @@ def run(chk: core.Check) -> int:
             fails_by_case[k].append(f)
     # json_schema_file: the written file is JSON and holds the same schema
     file_cases = [k for k, (stream, _) in enumerate(cases) if stream == "domain" and "schema" in impl[k]][: (60 if chk.quick else 600)]
-    for k, fr in zip(file_cases, core.guarded_map(impl_emit_file, [cases[k][1] for k in file_cases], per_item_timeout=30.0)):
+    for k, fr in zip(file_cases, robust_map(impl_emit_file, [cases[k][1] for k in file_cases])):
         chk.count(("file", k), True)
+        if fr.get("skipped"):
+            continue
         if fr.get("loaded") != impl[k]["schema"]:
             fails_by_case[k].append(({"kind": "file-output", "how": "raises" if "raises" in fr else "differs"},
                                      "json_schema_file wrote %s, json_schema returned %s" % (json.dumps(fr)[:300], json.dumps(impl[k]["schema"])[:300])))
